@@ -89,17 +89,36 @@ type BlockLayout struct {
 // WriteFile writes a container file. meta is written in the given order as a
 // single map block.
 func WriteFile(meta []MetaEntry, codec string, sync [16]byte, blocks []Block) ([]byte, Layout) {
+	return WriteFileSplit(meta, nil, false, codec, sync, blocks)
+}
+
+// WriteFileSplit is WriteFile with the metadata map written in several map blocks (split gives the number of
+// entries per block, nil = one block), each block in the byte-size-prefixed form (negative count, then the byte
+// size) when sized is set — both are what the specification allows for any map.
+func WriteFileSplit(meta []MetaEntry, split []int, sized bool, codec string, sync [16]byte, blocks []Block) ([]byte, Layout) {
 	var lay Layout
 	b := append([]byte(nil), Magic...)
 	lay.MetaCountOff = len(b)
-	if len(meta) > 0 {
-		b = AppendLong(b, int64(len(meta)))
-		for _, m := range meta {
-			b = AppendLong(b, int64(len(m.Key)))
-			b = append(b, m.Key...)
-			b = AppendLong(b, int64(len(m.Val)))
-			b = append(b, m.Val...)
+	if split == nil && len(meta) > 0 {
+		split = []int{len(meta)}
+	}
+	pos := 0
+	for _, n := range split {
+		var body []byte
+		for _, m := range meta[pos : pos+n] {
+			body = AppendLong(body, int64(len(m.Key)))
+			body = append(body, m.Key...)
+			body = AppendLong(body, int64(len(m.Val)))
+			body = append(body, m.Val...)
 		}
+		pos += n
+		if sized {
+			b = AppendLong(b, -int64(n))
+			b = AppendLong(b, int64(len(body)))
+		} else {
+			b = AppendLong(b, int64(n))
+		}
+		b = append(b, body...)
 	}
 	b = AppendLong(b, 0)
 	lay.SyncOff = len(b)
